@@ -2216,8 +2216,16 @@ impl<E: Effect> Executor<E> {
 
         // If we found PIDs, register awaits before processing sources
         if !pid_targets.is_empty() {
+            // Re-awaiting a process resets its entry; a result retained by an earlier select
+            // leaves storage here and must be released.
+            let mut replaced = Vec::new();
             for target in &pid_targets {
-                process.awaiting.insert(*target, None);
+                if let Some(Some(previous)) = process.awaiting.insert(*target, None) {
+                    replaced.push(previous);
+                }
+            }
+            for previous in &replaced {
+                self.release(previous);
             }
 
             self.mark_selecting(pid);
